@@ -191,7 +191,7 @@ func cmdCheck(args []string) int {
 			fnReports = append(fnReports, fnReport{Name: lg.fname, Mode: lg.mode, Obligations: len(lg.obls)})
 		}
 	}
-	timeout, retry := 10, 40
+	timeout, retry := 10, 30
 	useAll := false
 	if *tier == "thorough" {
 		timeout, retry = 120, 120
@@ -338,7 +338,7 @@ func cmdCheck(args []string) int {
 			"known_findings":           knownPrinted,
 			"assumed_callee_contracts": assumedCallees,
 			"cover_queries":            len(covers),
-			"back_ends":                "z3-new 5.1.0, z3 4.8.12, cvc5 1.0.3 raced per obligation",
+			"back_ends":                "z3-new 5.1.0, z3 4.8.12, cvc5 1.0.3 raced per obligation (sliced script, then full script; budgets in CPU seconds); last stage adds z3-new seeds 1-3 / auto_config=false, z3 seed 1, cvc5 --enum-inst",
 			"solver_time_s":            float64(solverMs) / 1000.0,
 			"load_s":                   loadS, "solve_wall_s": solveS,
 			"explanation": "obligations generated from the go/ssa form of the functions under contract in /repo's current working tree; every obligation is one SMT-LIB query",
